@@ -237,7 +237,7 @@ Section Disc.
   Proof. constructor; cbn; auto; try (intros e []). constructor. Qed.
 
   Lemma pre_wf s : PreInv s -> wf_store (store (db s)).
-  Proof. intros HP. apply (wf_of_Uw U U_id U_up); [apply (pre_nodup s HP) | apply (pre_inU s HP)]. Qed.
+  Proof. intros HP. apply (wf_of_U U U_id U_up); [apply (pre_nodup s HP) | apply (pre_inU s HP)]. Qed.
 
   Lemma pre_step_old s b e : PreInv s -> In b U -> find (bid b) (store (db s)) = Some e ->
     fk_step cfg s b = (s, [], ROk).
@@ -266,7 +266,7 @@ Section Disc.
       unfold fuel_of. cbn [bic_loop]. rewrite (link_of_stored _ _ _ Hf), Eb, E0.
       unfold num_of. rewrite (find_zero_wf _ Hwf), He. cbn [ri ref_empty N.eqb].
       rewrite Hs, Hhl, Hhold. reflexivity.
-    - rewrite (add_link_old_w U U_id U_uniq _ _ _ HU Hb Hf E0). reflexivity.
+    - rewrite (add_link_old U U_id U_uniq _ _ _ HU Hb Hf E0). reflexivity.
   Qed.
 
   (* ProcessBlock on a new block while no LIB is known *)
@@ -294,7 +294,7 @@ Section Disc.
     unfold fk_step. destruct (N.eqb_spec (bid b) (bparent b)); [contradiction|].
     rewrite Hl, Hls, Hincl. cbn [rn ref_empty andb].
     replace (bnum b <? 0) with false by lia. cbn [andb].
-    rewrite (add_link_new_w U U_id _ _ Hb Hf).
+    rewrite (add_link_new U U_id _ _ Hb Hf).
     assert (Hhl : has_lib (new_db (db s) b) = false).
     { unfold has_lib, new_db. cbn [libref]. rewrite Hl. reflexivity. }
     rewrite Hhl. cbv zeta.
@@ -647,7 +647,7 @@ Section Disc.
     { unfold d1. cbn [new_db store]. rewrite keys_snoc. apply nodup_snoc; assumption. }
     assert (HU1 : in_U (store d1)).
     { unfold d1. cbn [new_db store]. intros e Hin. apply in_app_or in Hin as [Hin|[<-|[]]]; [apply HU; exact Hin | exact Hb]. }
-    pose proof (wf_of_Uw U U_id U_up _ Hnd1 HU1) as Hwf1.
+    pose proof (wf_of_U U U_id U_up _ Hnd1 HU1) as Hwf1.
     assert (Hfb : find (bid b) (store d1) = Some en).
     { unfold d1. cbn [new_db store]. apply (find_snoc_new (store (db s)) en). exact Hk. }
     destruct (max_chain (store d1) Hwf1 (fuel_of d1) (bid b) (enough_fuel_of d1 (bid b))) as (y & p & Hc & Hy).
